@@ -12,7 +12,7 @@ HARNESS_PKGS = {
 }
 
 ADV_DEFAULTS = dict(MinDelay=6, MaxRADelay=1, InitCap=32, InitCount=3, MinIv=7, MaxIv=8, ChanCap=2, Retries=2,
-                    BackoffUnit=1, UnicastOnly="FALSE", CfgLife=1800, Hosts='{"h1"}', Kinds="{}", MaxIn=2, MaxT=10,
+                    BackoffUnit=1, UnicastOnly="FALSE", MonitorMode="FALSE", CfgLife=1800, Hosts='{"h1"}', Kinds="{}", MaxIn=2, MaxT=10,
                     MaxFlips=0, MaxHolds=0, WriteFaults="FALSE", LinkFaults="FALSE", AllowCancel="TRUE", Sec=1, MaxQueries=0)
 ADV_INVARIANTS = "Req TypeOK C08_Prompt C08_NothingRunsAfterReturn C09_Alive C10_NoHalfAlive C10_NoLeak"
 
@@ -316,7 +316,7 @@ def conformance(tmp, out_files, tag, max_scen=400, budget_s=None):
 
     def eligible(evs):
         r = evs[0]
-        if r.get("mode") != "adv":
+        if r.get("mode") not in ("adv", "mon"):
             return False
         if sum(1 for e in evs if e["ev"] == "dial") != 1 or any(e["ev"] == "dial" and e["res"] != "ok" for e in evs):
             return False
@@ -332,17 +332,17 @@ def conformance(tmp, out_files, tag, max_scen=400, budget_s=None):
         if not eligible(evs):
             continue
         r = evs[0]
-        key = (r["unicast"], r["cfglife"], r["min"], r["max"])
+        key = (r["unicast"], r["cfglife"], r["min"], r["max"], r["mode"] == "mon")
         groups.setdefault(key, []).append(evs)
     explained, deviations, stats = set(), [], []
     total = 0
     t_start = time.time()
     for key, lst in sorted(groups.items(), key=lambda kv: str(kv[0])):
         lst = lst[:max_scen]
-        unicast, cfglife, mn, mx = key
+        unicast, cfglife, mn, mx, monmode = key
         rs = lambda x: ((x + 500) // 1000) * 1000
         consts = dict(MinDelay=3000, MaxRADelay=500, InitCap=16000, InitCount=3, MinIv=rs(mn), MaxIv=rs(mx), ChanCap=16, Retries=5,
-                      BackoffUnit=50, UnicastOnly="TRUE" if unicast else "FALSE", CfgLife=cfglife, Hosts="{}", Kinds="{}", MaxIn=0, DebugK=0,
+                      BackoffUnit=50, UnicastOnly="TRUE" if unicast else "FALSE", MonitorMode="TRUE" if monmode else "FALSE", CfgLife=cfglife, Hosts="{}", Kinds="{}", MaxIn=0, DebugK=0,
                       MaxT=0, MaxFlips=0, MaxHolds=0, WriteFaults="TRUE", LinkFaults="TRUE", AllowCancel="TRUE", Sec=1000, MaxQueries=0)
         for b in range(0, len(lst), 100):
             if budget_s is not None and time.time() - t_start > budget_s:
